@@ -141,6 +141,21 @@ class FakeWriter:
         return default
 
 
+class _OddError(Exception):
+    """an application exception with no arguments and an unhelpful text"""
+    def __str__(self):
+        return ""
+
+
+def _cb_exc(n: int) -> Exception:
+    """callback failures of different shapes (no arguments, several arguments, OSError with errno, subclass ...):
+    whatever the callback raises must be harmless to the client"""
+    kinds = [lambda: RuntimeError("scripted callback failure"), lambda: ValueError(), lambda: TimeoutError(),
+             lambda: AssertionError(), lambda: KeyError("k"), lambda: OSError(5, "scripted"), lambda: _OddError(),
+             lambda: IndexError(), lambda: ZeroDivisionError("division by zero", 1, 2)]
+    return kinds[n % len(kinds)]()
+
+
 def _tname():
     t = asyncio.current_task()
     return t.get_name() if t is not None else "?"
@@ -282,7 +297,7 @@ async def _rx_session(spec, sess):
                 sess.ev(["cbsusp", idx])
                 await asyncio.sleep(0)
             if cb.get("raise_every") and n % cb["raise_every"] == 0:
-                raise RuntimeError("scripted callback failure")
+                raise _cb_exc(n)
         except BaseException as e:
             sess.ev(["cbe", idx, "raise" if isinstance(e, Exception) else "cancel"])
             raise
@@ -375,6 +390,8 @@ async def _tx_session(spec, sess):
     client.connect = connect_wrapped
     scb = spec.get("status_cb", "ret")
 
+    nst = [0]
+
     async def on_status(s):
         sess.ev(["status", s.name, _tname()])
         if scb == "sleep":
@@ -382,7 +399,8 @@ async def _tx_session(spec, sess):
         elif scb == "yield":
             await asyncio.sleep(0)
         elif scb == "raise":
-            raise RuntimeError("scripted status callback failure")
+            nst[0] += 1
+            raise _cb_exc(nst[0])
         sess.ev(["status_done", s.name, _tname()])
 
     if scb != "none":
